@@ -233,7 +233,7 @@ def stepLP (cfg : Cfg) (c : Nat) (s : Shared) (l : Locals) (spur : Bool) :
   | .a1 =>
     match s.cells c with
     | some p => (s, l, .nfDbg p, [.load .attempt0 (.cell c) (.v (.ptr p))])
-    | none => (s.setFault (.stuck "load of a dropped container"), l, .a1, [])
+    | none => (s.setFault (.stuck "load of a dropped container"), l, .done 0 none, [])
   | .nfDbg p =>
     let n := l.node.getD 0
     (dbgInUse s n "new_fast", l, .probe p 0, [.load .newFast0 (.inUse n) (.nat (s.nodes n).inUse)])
@@ -254,7 +254,7 @@ def stepLP (cfg : Cfg) (c : Nat) (s : Shared) (l : Locals) (spur : Bool) :
     match s.cells c with
     | some q => (s, l, (if q = p then .done p (some (n, idx)) else .a4 p idx),
         [.load .attempt1 (.cell c) (.v (.ptr q))])
-    | none => (s.setFault (.stuck "load of a dropped container"), l, .a3 p idx, [])
+    | none => (s.setFault (.stuck "load of a dropped container"), l, .done 0 none, [])
   | .a4 p idx =>
     let n := l.node.getD 0
     let cur := (s.nodes n).fast idx
@@ -293,7 +293,7 @@ def stepLP (cfg : Cfg) (c : Nat) (s : Shared) (l : Locals) (spur : Bool) :
   | .f3 g =>
     match s.cells c with
     | some p => (s, l, .chDbg g p, [.load .fallback0 (.cell c) (.v (.ptr p))])
-    | none => (s.setFault (.stuck "load of a dropped container"), l, .f3 g, [])
+    | none => (s.setFault (.stuck "load of a dropped container"), l, .done 0 none, [])
   | .chDbg g cand =>
     let n := l.node.getD 0
     (dbgInUse s n "confirm_helping", l, .f4 g cand, [.load .confirmHelping0 (.inUse n) (.nat (s.nodes n).inUse)])
@@ -311,7 +311,7 @@ def stepLP (cfg : Cfg) (c : Nat) (s : Shared) (l : Locals) (spur : Bool) :
     if x = .gen g then (s', l, (if cand = 0 then .fokPay cand else .fokInc cand), ev)
     else match x with
       | .env j => (s', l, .fr1 cand j, ev)
-      | _ => (s'.setFault (.debugAssert "helping::confirm: control is neither our generation nor a replacement"), l, .f5 g cand, ev)
+      | _ => (s'.setFault (.debugAssert "helping::confirm: control is neither our generation nor a replacement"), l, .done cand none, ev)
   | .fokInc cand =>
     let (s, evs) := incObj s cand
     (s, l, .fokPay cand, evs)
@@ -330,7 +330,7 @@ def stepLP (cfg : Cfg) (c : Nat) (s : Shared) (l : Locals) (spur : Bool) :
     let r := (s.nodes j).envelope
     match r with
     | .ptr r => (s, l, .fr2 cand j r, [.load .confirm2 (.envelope j) (.v (.ptr r))])
-    | .none => (s.setFault (.stuck "envelope holds NONE"), l, .fr1 cand j, [])
+    | .none => (s.setFault (.stuck "envelope holds NONE"), l, .done 0 none, [])
   | .fr2 cand j r =>
     let n := l.node.getD 0
     (s.setNode n fun nd => { nd with spaceOffer := j }, l, .frPay cand r,
